@@ -103,6 +103,30 @@ CHECKS["C10"] = dict(
               "queries, replay on the real Solver",
     design="2/C10")
 
+CHECKS["C09"] = dict(
+    level="other",
+    text="For 19 listed momentum-equation configurations the real "
+         "initialize()+loop() run for the particle pair (a,b) and (b,a) in "
+         "one symbolic path, with the real precomputed-symbol code blocks of "
+         "equation.py and an abstract radial kernel (W(r,h), gradient = "
+         "G(r,h)*xij, justified by C08); z3 decides m_a a_a + m_b a_b = 0 "
+         "component-wise and (x_a-x_b) x (m_a a_a) = 0 for the central-force "
+         "terms on every path pair, and rho > 0 for SummationDensity. Since "
+         "sums over neighbours are linear in pair terms, the pair identity "
+         "gives conservation for any closed set, given C01's symmetric "
+         "neighbour predicate.",
+    note="floats as reals; kernel abstracted by uninterpreted functions; "
+         "m, rho, h > 0, parameters >= 0, body forces 0, interacting pair; "
+         "EDAC pressure gradient under pavg_a = pavg_b, solid-mechanics "
+         "stress under equal array constants; equalities are first "
+         "normalised by z3's sum-of-monomials simplifier after clearing "
+         "denominators (all divisors non-zero on the path)",
+    technique="symbolic execution of the python loop() methods on z3 Real "
+              "proxies for both orderings of a pair, SMT (z3 normaliser + "
+              "QF_NRA/UF) per path, replay through the real compiled "
+              "SPHEvaluator",
+    design="2/C09")
+
 NOT_APPLICABLE = {
     "C05": "whole-application runs of compiled OpenMP code compared across "
            "configurations up to summation order: no unit a solver can "
